@@ -4,8 +4,8 @@ CONSTANTS
   MaxSteps = 4
   JsonTree = FALSE
   StatusOnly = FALSE
-  RemoveDrops = FALSE
+  RemoveDrops = TRUE
 INIT Init
 NEXT Next
 VIEW view
-INVARIANTS QueriesAgree CacheCoherent EmitInv
+INVARIANTS QueriesAgree
